@@ -51,6 +51,10 @@ def run(ck):
     ck.clause("C04.7", "overlap labels are scored in one segment only: conflicts are resolved between every consecutive chain "
                        "pair and the trimmed results written back in place (as C01.3 / C15.2)")
     pairwise_pass(ck, "C04.7")
+    ck.clause("C04.8", "a label is paired (and scored) at most once: de-duplication by query label and by reference label, each "
+                       "over pairs sorted by that label (as C01.4 / C12.5)")
+    from .c01 import dedupe
+    dedupe(ck, "C04.8")
 
 
 # ------------------------------------------------------------------------------------------------------------ C04.1
